@@ -143,6 +143,30 @@ def rule_p2(ctx, F):
                 {"site": fn.loc(v.pt), "path": s.render_path(v.path)[-6:]})
 
 
+def rule_g2(ctx, F):
+    """G2: a carriage return waits for the next byte.  The pending CR offset is consumed by *every* following
+    byte — a line feed just drops it — so nothing is spliced into the HTML after the next line's offset
+    was recorded."""
+    fn = find_fn(ctx, F, "HtmlRenderer::add_text", "G2")
+    if not fn:
+        return
+    takes = [pt for pt, c, d in calls_named(fn, "Option", "::take") if "last_carriage_return" in rsrules.deep_text(fn, c["a"][0], user=False)]
+    lines = [pt for pt, n in vec_calls(fn, "::push", "line_offsets")]
+    heads = [pt for pt, c, d in calls_named(fn, "Iterator", "::next")]
+    heads = sorted(heads, key=lambda p: int(fn.loc(p).rsplit(":", 1)[-1]))[:1]        # the byte loop (outermost); inner loops re-open highlights
+    ctx.floor("consumptions of the pending carriage return in add_text", len(takes), 1)
+    if not lines or not heads:
+        ctx.bad("G2", "add_text:line-offset-recording", "add_text no longer records line offsets inside its byte loop")
+        return
+    s = Search(fn, BeforeMonitor(lines, takes, reset_pts=heads), budget=2000000)
+    v = s.run(False)
+    if v is None:
+        ctx.ok("G2", "add_text:pending-cr-consumed-before-newline", "a line offset is recorded only after the pending carriage return was consumed for this byte (%d states)" % s.states)
+    else:
+        ctx.bad("G2", "add_text:pending-cr-consumed-before-newline", "HtmlRenderer::add_text records a new line offset at %s while a carriage return may still be pending (take() not reached for this byte): "
+                "the CR marker is later spliced into the previous line and the line table no longer matches the text" % fn.loc(v.pt), {"path": s.render_path(v.path)[-6:]})
+
+
 def rule_p4(ctx, F):
     """Injection containment, structural part: an injected layer is parsed only over included
     ranges that were accepted by the parser, and the ranges handed to an injected layer are always
@@ -366,6 +390,7 @@ def run(ctx):
     rule_p4(ctx, F)
     rule_p5(ctx, F)
     rule_l1(ctx, F)
+    rule_g2(ctx, F)
     return ctx.finish(
         "Pairing, who-may-construct and gate rules over rustc MIR of tree-sitter-highlight: HighlightStart↔push and HighlightEnd↔pop of the end stack in both directions and nowhere else; "
         "Source spans only from emit_event (advancing byte_offset) and the tail; None only after the tail; raw bytes reach the HTML only unescaped-safe, never CR; final newline. "
